@@ -4,5 +4,5 @@ EXTENDS OracleFee
 MCFee == (1 :> ("u" :> 1 @@ "x" :> 0)) @@ (2 :> ("u" :> 2 @@ "x" :> 1)) @@
          (3 :> ("u" :> 0 @@ "x" :> 0)) @@ (4 :> ("u" :> 0 @@ "x" :> 2))
 MCTreasuryOf == (1 :> "t1") @@ (2 :> "t2") @@ (3 :> "t3") @@ (4 :> "t1")
-View == <<bal, tre, nreq, remain>>
+View == <<bal, nreq, remain, sigFee, open, esc, nsig>>
 =============================================================================
